@@ -1,40 +1,50 @@
 (* EXTRACT *)
 (* JPEG (T.81) decoders: header parsing up to the start of the entropy-coded scan.
-     huff_build            = jpeg/standard/huffman.go  HuffmanTable.Build: index arithmetic of the
-                             first loop (lookupTable[code+j], Values[p]); the second loop has no
-                             index expression that depends on data
-     huff_ok               = the proposed validity check (cumulative count through length l+1 is
-                             at most 2^(l+1), for code lengths 1..8)
-     dht_tables            = the table loop shared by jpeg/lossless/decoder.go parseDHT
-                             (BuildStandardHuffmanTable), jpeg/lossless14sv1/decoder.go parseDHT and
-                             jpeg/baseline/decoder.go parseDHT (table.Build())
+     huff_build            = jpeg/standard/huffman.go  HuffmanTable.Build: validation and the index
+                             arithmetic of the lookup fill (lookupTable[base+j], Values[p]); the
+                             min/max code loop has no index expression that depends on data
+     dht_tables            = the table loop shared by parseDHT of jpeg/lossless, jpeg/lossless14sv1
+                             and jpeg/baseline (all three call table.Build() and return its error)
      jll_*                 = jpeg/lossless/decoder.go      parseSOF3 / parseDHT / parseSOS / Decode loop
      sv1_*                 = jpeg/lossless14sv1/decoder.go parseSOF3 / parseDHT / parseSOS / Decode loop
    Result Ok (w,h,c,precision): the decoder has reached the entropy decoder (or, SV1, the EOI
    exit) with this header.
-   g = false: code as it stands. g = true: Build refuses (error) tables that fail huff_ok and the
-   callers propagate that error. *)
+   The model is the fixed code (F37 Build validation, F44 second frame header rejected). *)
 From V Require Import Common.Base Parsers.PrsOutcome.
 
-(* first loop of Build, closed form per code length l (0-based, l < 8) with n = Bits[l] > 0 codes
-   starting at value index p: the inner loops touch Values[p .. p+n-1] and
-   lookupTable[p*2^(7-l) .. (p+n)*2^(7-l) - 1]; both index sets are monotone, so the last one decides. *)
-Fixpoint huff_build (bits : list Z) (l p nvals : Z) : outcome Z :=
+(* HuffmanTable.Build (after fix f8ccf3b, finding F37).
+   1. validation loop over the 16 code lengths: Bits[l] >= 0; next += Bits[l]; next <= 2^(l+1)
+      (canonical code of the last symbol of that length fits); next <<= 1; total <= len(Values)
+      -> ErrInvalidDHT otherwise.
+   2. lookup fill for l < 8, closed form per length with n = Bits[l] > 0 codes starting at value
+      index p and canonical code cn: touches Values[p .. p+n-1] and
+      lookupTable[cn*2^(7-l) .. (cn+n)*2^(7-l) - 1]; both index sets are monotone, the last decides.
+      The index checks are explicit (Panic) - the theorem shows they cannot fail after step 1.
+   Before the fix the lookup used p<<(7-l) without validation: BITS = 3,0,.. panicked with
+   index 256. *)
+Fixpoint huff_validate (bits : list Z) (l next total : Z) : option Z :=
   match bits with
-  | [] => Ok p
+  | [] => Some total
   | n :: rest =>
-    if 8 <=? l then Ok p
-    else if n <=? 0 then huff_build rest (l + 1) p nvals
-    else if (nvals <? p + n) || (256 <? (p + n) * 2 ^ (7 - l)) then Panic
-    else huff_build rest (l + 1) (p + n) nvals
+    if n <? 0 then None
+    else if 2 ^ (l + 1) <? next + n then None
+    else huff_validate rest (l + 1) (2 * (next + n)) (total + n)
   end.
 
-Fixpoint huff_ok (bits : list Z) (l cum : Z) : bool :=
+Fixpoint huff_fill (bits : list Z) (l p cn nvals : Z) : outcome unit :=
   match bits with
-  | [] => true
+  | [] => Ok tt
   | n :: rest =>
-    if 8 <=? l then true
-    else (if 0 <? n then (cum + n) * 2 ^ (7 - l) <=? 256 else true) && huff_ok rest (l + 1) (cum + Z.max 0 n)
+    if 8 <=? l then Ok tt
+    else if n <=? 0 then huff_fill rest (l + 1) p (2 * cn) nvals
+    else if (nvals <? p + n) || (256 <? (cn + n) * 2 ^ (7 - l)) then Panic
+    else huff_fill rest (l + 1) (p + n) (2 * (cn + n)) nvals
+  end.
+
+Definition huff_build (bits : list Z) (nvals : Z) : outcome unit :=
+  match huff_validate bits 0 0 0 with
+  | None => Err
+  | Some total => if nvals <? total then Err else huff_fill bits 0 0 0 nvals
   end.
 
 Fixpoint zsum (l : list Z) : Z := match l with [] => 0 | x :: r => x + zsum r end.
@@ -48,7 +58,7 @@ Fixpoint set_nth (l : list bool) (i : nat) : list bool :=
   | x :: r, S k => x :: set_nth r k
   end.
 
-Fixpoint dht_tables (g : bool) (fuel : nat) (data : list Z) (dc ac : list bool) : M (list bool * list bool) :=
+Fixpoint dht_tables (fuel : nat) (data : list Z) (dc ac : list bool) : M (list bool * list bool) :=
   match fuel with
   | O => oof
   | S k =>
@@ -64,17 +74,16 @@ Fixpoint dht_tables (g : bool) (fuel : nat) (data : list Z) (dc ac : list bool) 
       let r2 := skipn 16 r in
       if zlen r2 <? total then err else
       _ <- alloc total 1 ;;
-      if g && negb (huff_ok bits 0 0) then err else
-      _ <- lift (huff_build bits 0 0 total) ;;
+      _ <- lift (huff_build bits total) ;;
       let dc' := if tc =? 0 then set_nth dc (Z.to_nat th) else dc in
       let ac' := if tc =? 0 then ac else set_nth ac (Z.to_nat th) in
-      dht_tables g k (skipn (Z.to_nat total) r2) dc' ac'
+      dht_tables k (skipn (Z.to_nat total) r2) dc' ac'
     end
   end.
 
-Definition parse_dht (g : bool) (bs : list Z) (dc ac : list bool) : M (list bool * list bool * list Z) :=
+Definition parse_dht (bs : list Z) (dc ac : list bool) : M (list bool * list bool * list Z) :=
   sr <- read_segment bs ;;
-  t <- dht_tables g (S (length (fst sr))) (fst sr) dc ac ;;
+  t <- dht_tables (S (length (fst sr))) (fst sr) dc ac ;;
   ret (fst t, snd t, snd sr).
 
 Definition be16j (l : list Z) (o : Z) : Z := znth l o 0 * 256 + znth l (o + 1) 0.
@@ -90,6 +99,7 @@ Definition jll_parse_sof3 (st : jst) (bs : list Z) : M (jst * list Z) :=
   sr <- read_segment bs ;;
   let '(data, rest) := sr in
   if zlen data <? 6 then err else
+  if negb (j_w st =? 0) || negb (j_h st =? 0) then err else   (* second frame header *)
   let p := znth data 0 0 in
   (* d.precision is assigned before the range check; an error ends Decode, so the state does not matter *)
   if (p <? 2) || (16 <? p) then err else
@@ -127,30 +137,30 @@ Definition jll_scan_allocs (st : jst) (rest : list Z) : M unit :=
   _ <- (if j_c st =? 3 then _ <- alloc (j_w st * j_h st) 8 ;; alloc (j_w st * j_h st) 8 else ret tt) ;;
   alloc (j_w st * j_h st * j_c st * ((j_prec st + 7) / 8)) 1.
 
-Fixpoint jll_loop (g : bool) (fuel : nat) (st : jst) (bs : list Z) : M jhdr :=
+Fixpoint jll_loop (fuel : nat) (st : jst) (bs : list Z) : M jhdr :=
   match fuel with
   | O => oof
   | S k =>
     match read_marker bs with
     | Ok (m, r) =>
-      if m =? 195 then x <- jll_parse_sof3 st r ;; jll_loop g k (fst x) (snd x)
+      if m =? 195 then x <- jll_parse_sof3 st r ;; jll_loop k (fst x) (snd x)
       else if m =? 196 then
-        x <- parse_dht g r (j_dc st) (j_ac st) ;;
-        jll_loop g k (mkJ (j_w st) (j_h st) (j_c st) (j_prec st) (fst (fst x)) (j_ac st) (j_ids st)) (snd x)
+        x <- parse_dht r (j_dc st) (j_ac st) ;;
+        jll_loop k (mkJ (j_w st) (j_h st) (j_c st) (j_prec st) (fst (fst x)) (j_ac st) (j_ids st)) (snd x)
       else if m =? 218 then
         x <- jll_parse_sos st r ;;
         _ <- jll_scan_allocs (fst x) (snd x) ;;
         ret (j_w st, j_h st, j_c st, j_prec st)
       else if m =? 217 then err
-      else if has_length m then x <- read_segment r ;; jll_loop g k st (snd x)
-      else jll_loop g k st r
+      else if has_length m then x <- read_segment r ;; jll_loop k st (snd x)
+      else jll_loop k st r
     | _ => err
     end
   end.
 
-Definition jll_decode (g : bool) (fuel : nat) (bs : list Z) : M jhdr :=
+Definition jll_decode (fuel : nat) (bs : list Z) : M jhdr :=
   match read_marker bs with
-  | Ok (m, r) => if m =? 216 then jll_loop g fuel jst0 r else err
+  | Ok (m, r) => if m =? 216 then jll_loop fuel jst0 r else err
   | _ => err
   end.
 
@@ -172,6 +182,7 @@ Definition sv1_parse_sof3 (st : jst) (bs : list Z) : M (jst * list Z) :=
   sr <- read_segment bs ;;
   let '(data, rest) := sr in
   if zlen data <? 6 then err else
+  if negb (j_w st =? 0) || negb (j_h st =? 0) then err else   (* second frame header *)
   let p := znth data 0 0 in
   if (p <? 2) || (16 <? p) then err else
   let h := be16j data 1 in
@@ -209,16 +220,16 @@ Definition sv1_parse_sos (st : jst) (bs : list Z) : M (jst * list Z) :=
 Definition sv1_out_alloc (st : jst) : M unit :=
   alloc (j_w st * j_h st * zlen (j_ids st) * ((j_prec st + 7) / 8)) 1.
 
-Fixpoint sv1_loop (g : bool) (fuel : nat) (st : jst) (bs : list Z) : M jhdr :=
+Fixpoint sv1_loop (fuel : nat) (st : jst) (bs : list Z) : M jhdr :=
   match fuel with
   | O => oof
   | S k =>
     match read_marker bs with
     | Ok (m, r) =>
-      if m =? 195 then x <- sv1_parse_sof3 st r ;; sv1_loop g k (fst x) (snd x)
+      if m =? 195 then x <- sv1_parse_sof3 st r ;; sv1_loop k (fst x) (snd x)
       else if m =? 196 then
-        x <- parse_dht g r (j_dc st) (j_ac st) ;;
-        sv1_loop g k (mkJ (j_w st) (j_h st) (j_c st) (j_prec st) (fst (fst x)) (j_ac st) (j_ids st)) (snd x)
+        x <- parse_dht r (j_dc st) (j_ac st) ;;
+        sv1_loop k (mkJ (j_w st) (j_h st) (j_c st) (j_prec st) (fst (fst x)) (j_ac st) (j_ids st)) (snd x)
       else if m =? 218 then
         x <- sv1_parse_sos st r ;;
         _ <- note_alloc (2 * zlen (snd x) + 512) ;;
@@ -227,14 +238,14 @@ Fixpoint sv1_loop (g : bool) (fuel : nat) (st : jst) (bs : list Z) : M jhdr :=
       else if m =? 217 then
         _ <- sv1_out_alloc st ;;
         ret (j_w st, j_h st, zlen (j_ids st), j_prec st)
-      else if has_length m then x <- read_segment r ;; sv1_loop g k st (snd x)
-      else sv1_loop g k st r
+      else if has_length m then x <- read_segment r ;; sv1_loop k st (snd x)
+      else sv1_loop k st r
     | _ => err
     end
   end.
 
-Definition sv1_decode (g : bool) (fuel : nat) (bs : list Z) : M jhdr :=
+Definition sv1_decode (fuel : nat) (bs : list Z) : M jhdr :=
   match read_marker bs with
-  | Ok (m, r) => if m =? 216 then sv1_loop g fuel jst0 r else err
+  | Ok (m, r) => if m =? 216 then sv1_loop fuel jst0 r else err
   | _ => err
   end.
